@@ -164,9 +164,9 @@ def main(run):
         if run.replay:
             behs = run.replay_behaviours(group)
         elif group == "scen":
-            behs = gen_scenarios(run, 2000 if thorough else 160, run.seed)
+            behs = gen_scenarios(run, 1500 if thorough else 160, run.seed)
         else:
-            num = {"walk": (900, 110), "restart": (350, 60)}[group][0 if thorough else 1]
+            num = {"walk": (600, 110), "restart": (250, 60)}[group][0 if thorough else 1]
             steps = {"walk": (30, 26), "restart": (24, 22)}[group][0 if thorough else 1]
             behs = gen_walks(run, mode, num, steps, run.seed * 100 + gi)
         if not behs:
